@@ -260,7 +260,8 @@ def main():
             par = int(args[args.index("--par") + 1])
             del args[args.index("--par"):args.index("--par") + 2]
         root = os.path.join(VERIF, "seeded")
-        todo = [d for d in sorted(os.listdir(root)) if os.path.isfile(os.path.join(root, d, "patch.diff")) and (not args or any(d.startswith(a) or d.endswith(a) for a in args))]
+        exact = os.environ.get("VERIF_EXACT") == "1"
+        todo = [d for d in sorted(os.listdir(root)) if os.path.isfile(os.path.join(root, d, "patch.diff")) and (not args or any((d == a) if exact else (d.startswith(a) or d.endswith(a)) for a in args))]
 
         def one(d):
             mdir = os.path.join(root, d)
